@@ -81,6 +81,39 @@ def lay1(ctx, c):
                           "the %s pass stops at `%s` instead of visiting every statement: what the statements after that point define or need is ignored"
                           % (name, U(next((p_ for p_ in ast.walk(st) if isinstance(p_, ast.If) and any(e is x for e in exits for x in ast.walk(p_))), exits[0]))[:70].split("\n")[0]),
                           repo.loc(fn, exits[0]))
+    # the origin reported is the ORG that the code follows: for `ORG a / (no code) / ORG b / code` it is b
+    if "origin/name" in pos:
+        from ..concrete import Obj as _Oo, Desc as _Do, run_concrete as _rco
+
+        def mkst(is_org, addr, size):
+            st_ = _Oo("Statement")
+            ins_ = _Oo("Instruction")
+            ins_.attrs.update({"is_origin": is_org, "is_name": False})
+            pk_ = _Oo("CodePackage")
+            ad_ = _Oo("NumericValue", label="<address %s>" % addr)
+            ad_.attrs["none"] = False
+            pk_.attrs.update({"address": ad_, "size": size})
+            op_ = _Oo("Operand")
+            op_.attrs["operand_string"] = "X"
+            st_.attrs.update({"instruction": ins_, "code_pkg": pk_, "operand": op_})
+            return st_
+        sts = [mkst(True, "$2000", 0), mkst(False, "$2000", 0), mkst(True, "$1000", 0), mkst(False, "$1000", 2)]
+        none_ = _Oo("NoneValue", label="<no origin yet>")
+        none_.attrs["none"] = True
+        envo = dict(ctx.env)
+        envo.update({"self.statements": sts, "self.origin": none_, "self.name": None})
+        evo, nto = [], []
+        # the scan may be spread over several top-level statements (one per quantity): evaluate everything from the first of them on
+        _rco(body[pos["origin/name"][0]:], envo, evo, nto, hooks={("*", "is_none"): (lambda r, a: bool(r.attrs.get("none")))})
+        og = envo.get("self.origin")
+        if nto:
+            c.undecided("translate_statements:origin-choice", "scan-not-evaluable", "; ".join(sorted(set(nto)))[:100], repo.loc(fn, pos["origin/name"][1]))
+        elif isinstance(og, _Oo) and repr(og) == "<address $1000>":
+            c.ok("translate_statements:origin-choice", "ORG a / ORG b / code -> origin b", repo.loc(fn, pos["origin/name"][1]))
+        else:
+            c.finding("translate_statements:origin-choice", "for ORG $2000 / equates / ORG $1000 / code the origin is %r" % (og,),
+                      "the origin/name scan, evaluated for `ORG $2000`, a statement without code, `ORG $1000`, code, reports the origin %r: the code is laid out at $1000, so the image "
+                      "would be loaded at another address than the listing shows" % (og,), repo.loc(fn, pos["origin/name"][1]))
     # the fix-up pass hands each statement its own position: a position looked up by value finds the first EQUAL statement
     # (Statement defines __eq__ over a few fields), which is another statement whenever two lines read alike
     if "address fix-up" in pos:
@@ -263,6 +296,13 @@ def lay3(ctx, c):
     ok = bool(tests) and all(r not in gg.reachable(avoid_edges=[(t, False) for t in tests]) for r in rets) and all(gg.only_raises_after(t, True) for t in tests)
     has_raise = any(isinstance(x, ast.Raise) for x in ast.walk(gs.node))
     uses_get = any(isinstance(x, ast.Call) and isinstance(x.func, ast.Attribute) and x.func.attr == "get" for x in ast.walk(gs.node))
+    gparams = [p_ for p_ in gs.params if p_ not in ("self", "cls")]
+    tbl_name = gparams[1] if len(gparams) > 1 else "symbol_table"
+    foreign = [n for n in ast.walk(gs.node) if isinstance(n, ast.Return) and n.value is not None and tbl_name not in U(n.value)]
+    if foreign:
+        c.finding("Value.get_symbol:source", "a name is resolved from something other than the program's symbol table (%s)" % U(foreign[0].value)[:50],
+                  "Value.get_symbol returns `%s` without consulting %s: a label of the program with that name is defined (save_symbol records it) but every reference to it gets "
+                  "the other value" % (U(foreign[0].value)[:60], tbl_name), repo.loc(gs, foreign[0]))
     if ok:
         c.ok("Value.get_symbol", "missing symbol -> raise", repo.loc(gs, gs.node))
     elif not has_raise:
@@ -453,6 +493,17 @@ def exp1(ctx, c):
                 bo = [x for x in ast.walk(n.orelse[0]) if isinstance(x, ast.BinOp)]
                 if bo:
                     arms2["else"] = type(bo[0].op)
+    # operand order of the non-commutative operators: address OP constant
+    cao = repo.method("ExpressionValue", "calculate_address_offset", inherited=False)
+    addr_vars = {U(n.targets[0]) for n in ast.walk(cao.node) if isinstance(n, ast.Assign) and U(n.value).endswith(".code_pkg.address.int")}
+    for x in ast.walk(cao.node):
+        if isinstance(x, ast.BinOp) and isinstance(x.op, (ast.Sub, ast.Div, ast.FloorDiv)) and isinstance(x.left, ast.Name) and isinstance(x.right, ast.Name) and addr_vars:
+            opn = "-" if isinstance(x.op, ast.Sub) else "/"
+            if x.right.id in addr_vars and x.left.id not in addr_vars:
+                c.finding("calculate_address_offset:%s:order" % opn, "computes constant %s address" % opn,
+                          "calculate_address_offset computes `%s`: for LABEL%sn the label's address is the left operand, the constant the right one" % (U(x), opn), repo.loc(cao, x))
+            elif x.left.id in addr_vars:
+                c.ok("calculate_address_offset:%s:order" % opn, "address %s constant" % opn, repo.loc(cao, x))
     for op, want in (("+", ast.Add), ("-", ast.Sub), ("*", ast.Mult)):
         if op in arms2:
             c.check(arms2[op] is want, "calculate_address_offset:%s" % op, want.__name__, "computes %s" % arms2[op].__name__,
@@ -469,9 +520,9 @@ def exp1(ctx, c):
     from ..concrete import Obj as _Ob, ClsRef as _Cr, Desc as _Ds, run_concrete as _rcx
     ev_kind = {}
     ev_nt = []
-    for kind_ in ("address", "numeric", "other"):
+    for kind_, int_ in (("address", 7), ("numeric", 7), ("other", 7), ("address", 0), ("numeric", 0)):
         ent = _Ob("Value", label="<%s entry>" % kind_)
-        ent.attrs.update({"int": 7, "kind": kind_})
+        ent.attrs.update({"int": int_, "kind": kind_})
         hk = {("*", "is_address"): (lambda r, a: r.attrs.get("kind") == "address"), ("*", "is_numeric"): (lambda r, a: r.attrs.get("kind") == "numeric"),
               ("self", "get_symbol"): (lambda a, _e=ent: _e)}
         for pn in ("is_symbol", "is_expression", "is_address_expression", "is_string", "is_none"):
@@ -484,15 +535,22 @@ def exp1(ctx, c):
         end_ = _rcx(body_without_doc(sv.node), envs, evs_, nts_, hooks=hk)
         ev_nt += nts_
         rv = envs.get("$return")
-        ev_kind[kind_] = ("raise" if (end_ or "").startswith("raise") else ("none" if (end_ is None or rv is None) else (rv.cls if isinstance(rv, _Ob) else "other")))
+        res_ = ("raise" if (end_ or "").startswith("raise") else ("none" if (end_ is None or rv is None) else (rv.cls if isinstance(rv, _Ob) else "other")))
+        if int_ == 0:
+            # the statement index / the constant 0 is a value like any other
+            if res_ != ev_kind.get(kind_):
+                ev_kind[kind_ + " whose value is 0"] = res_
+            continue
+        ev_kind[kind_] = res_
     if not ev_nt:
-        good_ = ev_kind.get("address") == "AddressValue" and ev_kind.get("numeric", "").endswith("NumericValue") and ev_kind.get("other") == "raise"
+        good_ = ev_kind.get("address") == "AddressValue" and ev_kind.get("numeric", "").endswith("NumericValue") and ev_kind.get("other") == "raise" and \
+            not any(k.endswith("whose value is 0") for k in ev_kind)
         if ev_kind.get("other") == "none":
             c.finding("SymbolValue.resolve", "returns a value on some paths and None on others",
                       "SymbolValue.resolve returns None when the table entry is neither an address nor numeric (save_symbol stores the raw EQU operand, which may be a string, a symbol or an "
                       "expression): the None reaches the code package and the assembler ends in an AttributeError, also while printing the diagnostic", repo.loc(sv, sv.node))
         elif not good_:
-            c.finding("SymbolValue.resolve", "label -> %s, number -> %s, anything else -> %s" % (ev_kind.get("address"), ev_kind.get("numeric"), ev_kind.get("other")),
+            c.finding("SymbolValue.resolve", ", ".join("%s -> %s" % kv for kv in sorted(ev_kind.items())),
                       "SymbolValue.resolve must turn a label into an AddressValue, a number into a NumericValue and reject anything else; evaluated per kind it gives %s" % ev_kind,
                       repo.loc(sv, sv.node))
         else:
@@ -658,7 +716,32 @@ def dir1(ctx, c):
     sv = repo.method("StringValue", "__init__", inherited=False)
     t = U(sv.node)
     good = "value[-1] != value[0]" in t and "value[1:-1]" in t and "ord(x)" in t
-    if good:
+    # decided by folding the constructor for sample strings: one byte per character between the delimiters, blanks included
+    from .wid import fold_constructor as _fcs
+    from ..consteval import Raised as _Rs2, NotConst as _Ns2
+    sv_bad = None
+    sv_und = None
+    for text, want in (('"AB"', [0x41, 0x42]), ('" A "', [0x20, 0x41, 0x20]), ("/X/", [0x58]), ('""', []), ("'it''", None), ('"AB', None), ("|a b|", [0x61, 0x20, 0x62])):
+        try:
+            out_ = _fcs(ctx, "StringValue", {"value": text})
+            ha = out_.get("self.hex_array")
+            got_ = [int(x, 16) for x in ha] if isinstance(ha, list) else None
+        except _Rs2:
+            got_ = "raises"
+        except (_Ns2, Exception) as e_:
+            sv_und = "%s for %r" % (str(e_)[:50], text)
+            break
+        if want is None:
+            continue
+        if got_ != want:
+            sv_bad = (text, got_, want)
+            break
+    if sv_und is None and sv_bad:
+        c.finding("StringValue", "the string %s is stored as %s" % (sv_bad[0], sv_bad[1]),
+                  "StringValue(%s) holds the bytes %s; the characters between the delimiters are %s (every character counts, leading and trailing blanks too)" % sv_bad, repo.loc(sv, sv.node))
+    elif sv_und is None:
+        c.ok("StringValue", "delimiters must match; one byte per character between them", repo.loc(sv, sv.node))
+    elif good:
         c.ok("StringValue", "delimiters must match; one byte per character between them", repo.loc(sv, sv.node))
     else:
         c.undecided("StringValue", "shape-unknown", "", repo.loc(sv, sv.node))
@@ -698,7 +781,7 @@ def dir1(ctx, c):
                 pre.append(st)
             try:
                 for line, want in ((' FCC /AB/', "/AB/"), (' FCC /AB/ rest', "/AB/"), (' FCC "ONE TWO THREE"', '"ONE TWO THREE"'), (' FCC "ONE TWO  THREE" c', '"ONE TWO  THREE"'),
-                                   (" FCC /AB/x", "/AB/"), (" FCC 'Q' 'R'", "'Q'"), (' FCC "A B\tC  D"', '"A B\tC  D"'), (' FCC "A  B"', '"A  B"')):
+                                   (" FCC /AB/x", "/AB/"), (" FCC 'Q' 'R'", "'Q'"), (' FCC "A B\tC  D"', '"A B\tC  D"'), (' FCC "A  B"', '"A  B"'), (' FCC ""', '""'), (' FCC // c', '//')):
                     m_ = rx_line.match(line + "\n")
                     if m_ is None:
                         continue
@@ -732,7 +815,17 @@ def dir1(ctx, c):
         c.finding("PseudoOperand.resolve_symbols", "never resolves",
                   "PseudoOperand.resolve_symbols returns self unchanged: FCB LABEL emits 00, FDB E,L raises, and an undefined symbol in a data directive is accepted silently", repo.loc(rs, rs.node))
     else:
-        c.ok("PseudoOperand.resolve_symbols", "resolves", repo.loc(rs, rs.node))
+        # resolving is only half of it: the value of an EQU / SET is not code.  If it becomes an address value, fix_addresses (which patches every operand whose value
+        # is a label) stores that address as operand bytes of a statement whose translate() returned an empty package
+        defs = [n for n in ast.walk(rs.node) if isinstance(n, ast.If) and "is_pseudo_define" in U(n.test) and any(isinstance(x, ast.Call) and U(x.func).endswith(".resolve") for x in ast.walk(n))]
+        fa_ = repo.method("Statement", "fix_addresses")
+        unguarded = any(isinstance(n, ast.If) and re.fullmatch(r"self\.operand\.value\.is_address\(\)", U(n.test)) for n in ast.walk(fa_.node))
+        if defs and unguarded:
+            c.finding("PseudoOperand.resolve_symbols", "an EQU operand that is a label becomes an address value",
+                      "PseudoOperand.resolve_symbols resolves the operand of EQU / SET; for `ALIAS EQU LABEL` the value becomes the label's AddressValue, and Statement.fix_addresses "
+                      "patches every operand whose value is a label: the EQU statement, which emits nothing, receives two operand bytes and every later address moves", repo.loc(rs, rs.node))
+        else:
+            c.ok("PseudoOperand.resolve_symbols", "resolves", repo.loc(rs, rs.node))
     # EQU width tagging by spelling: PseudoOperand.__init__ evaluated for one constant (16) written six ways; which value class the EQU ends up
     # holding is the width tag that ExpressionValue.resolve later propagates
     init = repo.method("PseudoOperand", "__init__", inherited=False)
@@ -801,7 +894,9 @@ def inc1(ctx, c):
     repo = ctx.repo
     fn = repo.method("Program", "process_mnemonics")
     where = repo.loc(fn, fn.node)
-    loop = next((n for n in body_without_doc(fn.node) if isinstance(n, ast.For)), None)
+    from ..inline import flatten as _flinc
+    fn_flat = _flinc(repo, fn, depth=2, only={m_ for m_ in repo.cls("Program").methods if m_ not in ("process_mnemonics", "parse")})
+    loop = next((n for n in body_without_doc(fn_flat) if isinstance(n, ast.For)), None)
     if loop is None:
         c.undecided("process_mnemonics", "loop-not-found", "", where)
         return
@@ -867,8 +962,47 @@ def inc1(ctx, c):
     whole = U(_fl(repo, fn, depth=2, only={m_ for m_ in repo.cls("Program").methods if m_ not in ("process_mnemonics", "parse")}))
     reads = "read_file(" in whole or "read_assembly_contents(" in whole or "readlines(" in whole or "open(" in whole
     c.shape(reads, "process_mnemonics:read", "file read at the point of inclusion", "no read of the included file recognised", where)
-    # get_include_filename returns the operand text
+    # get_include_filename evaluated for sample operands: the name returned is the operand as written
     gi = repo.method("Statement", "get_include_filename")
+    import os as _os
+    from ..concrete import Obj as _Og, Desc as _Dg, run_concrete as _rcg
+    gi_bad, gi_notes = None, []
+    for opnd in ("equates", "dir/file.asm", "./x.inc", "UPPER.ASM", "..//up.asm", "noext."):
+        ins_ = _Og("Instruction")
+        ins_.attrs["is_include"] = True
+        op_ = _Og("Operand")
+        op_.attrs["operand_string"] = opnd
+        envg = dict(ctx.env)
+        envg.update({"self.instruction": ins_, "self.operand": op_})
+        hk = {("os.path", fnm): (lambda a, _f=getattr(_os.path, fnm): _f(*a)) for fnm in ("splitext", "basename", "dirname", "normpath", "join", "split", "isabs", "expanduser")}
+        evg, ntg = [], []
+        _rcg(body_without_doc(gi.node), envg, evg, ntg, hooks=hk)
+        gi_notes += ntg
+        if not ntg and envg.get("$return") != opnd:
+            gi_bad = gi_bad or (opnd, envg.get("$return"))
+    if gi_bad and not gi_notes:
+        c.finding("Statement.get_include_filename", "INCLUDE %s names the file %r" % gi_bad,
+                  "get_include_filename returns %r for the operand %r: the file included is the one the source names, character for character (no default extension, no normalisation)"
+                  % (gi_bad[1], gi_bad[0]), repo.loc(gi, gi.node))
+    # a file that cannot be read is an error for the caller to report, not an empty source
+    rac = repo.method("SourceFile", "read_assembly_contents")
+    for tr_ in [n for n in ast.walk(rac.node) if isinstance(n, ast.Try)]:
+        for h in tr_.handlers:
+            hn = [U(x).split(".")[-1] for x in (h.type.elts if isinstance(h.type, ast.Tuple) else [h.type])] if h.type is not None else ["BaseException"]
+            if any(x in ("OSError", "IOError", "FileNotFoundError", "PermissionError", "IsADirectoryError", "Exception", "BaseException", "EnvironmentError") for x in hn) \
+                    and not any(isinstance(y, ast.Raise) for y in ast.walk(h)):
+                c.finding("SourceFile.read_assembly_contents:errors", "a file that cannot be opened reads as %s" % (U(next((y.value for y in ast.walk(h) if isinstance(y, ast.Return) and y.value is not None), ast.Constant(value=None)))),
+                          "read_assembly_contents catches %s and returns normally: a missing INCLUDE file (or a mistyped source file) is assembled as an empty file instead of being "
+                          "reported" % ", ".join(hn), repo.loc(rac, h))
+    # the chain of files being expanded is extended per branch of the recursion, not accumulated in one shared list
+    if trail_name_ := (params[1] if len(params) > 1 else None):
+        grows = [n for n in ast.walk(fn_flat) if isinstance(n, ast.Call) and isinstance(n.func, ast.Attribute) and n.func.attr in ("append", "add", "extend") and U(n.func.value) == trail_name_]
+        shrinks = [n for n in ast.walk(fn_flat) if isinstance(n, ast.Call) and isinstance(n.func, ast.Attribute) and n.func.attr in ("pop", "remove", "discard") and U(n.func.value) == trail_name_]
+        if grows and not shrinks:
+            c.finding("process_mnemonics:trail-shared", "the chain is one list that only grows (%s)" % U(grows[0])[:50],
+                      "process_mnemonics records the file in `%s` and hands the same object down: nothing is removed when an inclusion is finished, so a file included a second time "
+                      "(by a sibling, or twice by design) is rejected as including itself" % U(grows[0])[:60], repo.loc(fn, grows[0]))
+    # get_include_filename returns the operand text (fallback reading)
     good = re.search(r"return self\.operand\.operand_string if self\.instruction\.is_include else None", U(gi.node)) is not None
     altered = [U(n) for n in ast.walk(gi.node) if isinstance(n, ast.Call) and isinstance(n.func, ast.Attribute) and "operand_string" in U(n.func.value)
                and n.func.attr not in ("strip",) ]
@@ -881,7 +1015,7 @@ def inc1(ctx, c):
     else:
         c.undecided("Statement.get_include_filename", "shape-unknown", "", repo.loc(gi, gi.node))
     # no visited set / missing file handling (known findings)
-    if not any(isinstance(n, (ast.Try, ast.Raise)) for n in ast.walk(fn.node)):
+    if not any(isinstance(n, (ast.Try, ast.Raise)) for n in ast.walk(fn_flat)):
         c.finding("process_mnemonics:diagnostics", "a missing file or an inclusion cycle is not turned into a diagnostic",
                   "process_mnemonics opens the included file outside any handler and recurses without a visited set: a missing file ends in FileNotFoundError and a file that includes itself in RecursionError",
                   where)
@@ -917,7 +1051,7 @@ def inc1(ctx, c):
     # the handler around the read catches every way a path can fail to open (missing, a directory, not permitted): OSError
     NARROW = {"FileNotFoundError", "PermissionError", "IsADirectoryError", "NotADirectoryError", "FileExistsError"}
     WIDE = {"OSError", "IOError", "EnvironmentError", "Exception", "BaseException"}
-    for tr in [n for n in ast.walk(fn.node) if isinstance(n, ast.Try)]:
+    for tr in [n for n in ast.walk(fn_flat) if isinstance(n, ast.Try)]:
         if any(isinstance(x, ast.Call) and U(x.func).endswith((".read_file", "read_assembly_contents", "open")) for b in tr.body for x in ast.walk(b)):
             names = set()
             for h in tr.handlers:
@@ -976,6 +1110,17 @@ def txt1(ctx, c):
         c.undecided("parse_line:mnemonic-case", "shape-not-recognised", "", wp)
     c.shape(re.search(r"for (\w+) in INSTRUCTIONS if \1\.mnemonic == ", t) is not None or re.search(r"for (\w+) in INSTRUCTIONS:\s+if \1\.mnemonic == ", t) is not None,
             "parse_line:lookup", "first table row with that mnemonic", "instruction lookup not recognised", wp)
+    # the operand field reaches the operand classes as written: symbols are case sensitive
+    pl_flat_ = _fl3(repo, pl, depth=2)
+    opvars = {U(n.targets[0]) for n in ast.walk(pl_flat_) if isinstance(n, ast.Assign) and isinstance(n.targets[0], ast.Name) and re.search(r"group\('operands'\)", U(n.value))}
+    cased = [n for n in ast.walk(pl_flat_) if isinstance(n, ast.Call) and isinstance(n.func, ast.Attribute) and n.func.attr in ("upper", "lower", "casefold", "swapcase", "title", "capitalize")
+             and (re.search(r"group\('operands'\)", U(n.func.value)) or U(n.func.value) in opvars)]
+    if cased:
+        c.finding("parse_line:operand-case", "the operand field is case-changed (%s)" % U(cased[0])[:40],
+                  "parse_line applies %s to the operand field: labels are case sensitive, so a reference to `table` becomes a reference to `TABLE`, which is another symbol or none"
+                  % U(cased[0])[:50], repo.loc(pl, cased[0]))
+    else:
+        c.ok("parse_line:operand-case", "the operand field is passed on as written", wp)
     mod = repo.cls("Statement").module
     node = mod.assigns.get("ASM_LINE_REGEX")
     pat = try_fold(node.args[0]) if isinstance(node, ast.Call) and node.args else None
